@@ -78,6 +78,11 @@ func c01Alphabet(tier string) []seqSym {
 		sy("FSET", "k1", "a", "g", "STR"),
 		sy("FSET", "k1", "a", "f", "0", "g", "x"),
 		sy("FSET", "k2", "a", "f", "1"),
+		// zero spelled otherwise is a value like any other: only the spelling "0" removes a field
+		sy("FSET", "k1", "a", "f", "0.0"),
+		sy("SET", "k1", "b", "FIELD", "f", "-0", "POINT", "3", "4"),
+		// a deadline whose encoding needs the longest integer form (about 127 years)
+		sy("SET", "k1", "a", "EX", "4000000000", "POINT", "1", "2"),
 		sy("PDEL", "k1", "*"),
 		sy("DROP", "k2"),
 		sy("RENAME", "k2", "k1"),
